@@ -97,6 +97,9 @@ def check_one(rep, d, i, j, left, spec, F):
         if real != ('exc', IndexError):
             rep.fail('C05:index_error', 'out-of-range indices must raise IndexError, got %r' % (real,), inp)
         return
+    if real[0] == 'exc' and real[1] is not InterchangerError:
+        rep.fail('C05:refusal.kind', 'inside the range the only refusal is InterchangerError, got %r' % (real[1],), inp)
+        return
     if real[0] != want[0] or (real[0] == 'exc' and real[1] is not want[1]):
         rep.fail('C05:contract.outcome', 'real %r vs contract %r' % (real, want), inp)
         return
@@ -154,4 +157,53 @@ def run(tier, seed=0, shard=(0, 1)):
                 for left in (False, True):
                     check_one(rep, d, i, j, left, spec, F)
         rep.sample('%r: all (i, j, left)' % (d,))
+    if shard[0] == 0:
+        check_special_receivers(rep, spec)
     return rep.result()
+
+
+def check_special_receivers(rep, spec):
+    """"for all diagrams": receivers whose boxes are themselves diagrams (foliations) and instances of diagram subclasses
+    with their own constructors; every (i, j, left): the outcome is a diagram of the same dom / cod with the moved box in
+    place, or InterchangerError exactly when the contract (verified for all diagrams) refuses, or IndexError out of range"""
+    from discopy import cartesian, rigid
+    from discopy.quantum import circuit as qc, gates
+    x, y = monoidal.Ty('x'), monoidal.Ty('y')
+    f, g = monoidal.Box('f', x, x @ x), monoidal.Box('g', x @ x, x)
+    s_, e_ = monoidal.Box('s', monoidal.Ty(), y), monoidal.Box('e', y, monoidal.Ty())
+    layered = [(f @ s_ >> g @ monoidal.Id(y) >> monoidal.Id(x) @ e_).foliation(),
+               (s_ @ f >> monoidal.Id(y) @ g >> e_ @ monoidal.Id(x) >> f).foliation(),
+               (f @ f >> g @ g >> f @ s_ @ monoidal.Id(x)).foliation()]
+    add = cartesian.Box('add', 2, 1, lambda a, b: a + b)
+    special = [cartesian.Copy(2), cartesian.Copy(3), cartesian.Swap(2, 1), cartesian.Discard(2),
+               cartesian.Copy(2) >> add @ add, qc.IQPansatz(3, [[0.1, 0.2]]), qc.IQPansatz(2, [[0.3], [0.4]]),
+               rigid.Diagram.cups(rigid.Ty('a', 'b'), rigid.Ty('a', 'b').r), gates.Ket(0, 1) >> gates.CX >> gates.H @ gates.X]
+    for d in layered + special:
+        n = len(d)
+        for i in range(-1, n + 1):
+            for j in range(-1, n + 1):
+                for left in (False, True):
+                    inp = 'd=%r (%s); d.interchange(%d, %d, left=%r)' % (d, type(d).__name__, i, j, left)
+                    rep.case(('special', repr(d), i, j, left), nontrivial=(0 <= i < n and 0 <= j < n and i != j))
+                    real = common.outcome(d.interchange, i, j, left=left)
+                    if not (0 <= i < n and 0 <= j < n):
+                        if real != ('exc', IndexError):
+                            rep.fail('C05:index_error', 'out-of-range indices must raise IndexError, got %r' % (real,), inp)
+                        continue
+                    if real[0] == 'exc' and real[1] is not InterchangerError:
+                        rep.fail('C05:refusal.kind', 'inside the range the only refusal is InterchangerError, got %r' % (real[1],), inp)
+                        continue
+                    want = common.outcome(spec, d, i, j, left)
+                    if real[0] != want[0] or (real[0] == 'exc' and real[1] is not want[1]):
+                        rep.fail('C05:contract.outcome', 'real %r vs contract %r' % (real, want), inp)
+                        continue
+                    if real[0] == 'exc':
+                        continue
+                    r = real[1]
+                    why = common.wf_reason(r)
+                    if why:
+                        rep.fail('C01:interchange.wf', why, inp)
+                    expected = list(d.boxes)
+                    expected.insert(j, expected.pop(i))
+                    if (r.dom, r.cod) != (d.dom, d.cod) or r.boxes != expected:
+                        rep.fail('C05:box_order', 'dom / cod / boxes of the result: %r' % (r,), inp)
